@@ -919,47 +919,69 @@ func (ex *Exec) typeAssert(fr *Frame, st *State, pc *Term, x *ssa.TypeAssert) Va
 
 // ---------------------------------------------------------------- maps
 
-func keyTerm(v Value) *Term {
-	ls := toLeaves(v)
-	if len(ls) == 1 {
-		return ls[0]
+// keyTerm: the leaves of a map key (strings, integers, interfaces, structs of those)
+func keyTerm(v Value) []*Term {
+	return toLeaves(v)
+}
+
+func selN(row *Term, ks []*Term) *Term {
+	for _, k := range ks {
+		row = Select(row, k)
 	}
-	panic(unsupported("map with composite key"))
+	return row
+}
+
+func storeN(row *Term, ks []*Term, v *Term) *Term {
+	if len(ks) == 1 {
+		return Store(row, ks[0], v)
+	}
+	return Store(row, ks[0], storeN(Select(row, ks[0]), ks[1:], v))
+}
+
+func nestSort(ks []*Sort, v *Sort) *Sort {
+	for i := len(ks) - 1; i >= 0; i-- {
+		v = ArrSort(ks[i], v)
+	}
+	return v
 }
 
 func mapComps(mt *types.Map) (string, *Sort, []string, []*Sort) {
 	ks := leafSorts(mt.Key())
-	if len(ks) != 1 {
-		panic(unsupported("map with composite key " + mt.String()))
-	}
 	key := typeKey(mt)
 	vs := leafSorts(mt.Elem())
 	var names []string
 	var sorts []*Sort
 	for i, s := range vs {
 		names = append(names, fmt.Sprintf("M|%s|v%d", key, i))
-		sorts = append(sorts, ArrSort(BV64, ArrSort(ks[0], s)))
+		sorts = append(sorts, ArrSort(BV64, nestSort(ks, s)))
 	}
-	return fmt.Sprintf("M|%s|present", key), ArrSort(BV64, ArrSort(ks[0], BoolSort)), names, sorts
+	return fmt.Sprintf("M|%s|present", key), ArrSort(BV64, nestSort(ks, BoolSort)), names, sorts
+}
+
+func leafOf(s *Sort) *Sort {
+	for s.IsArray() {
+		s = s.Elem
+	}
+	return s
 }
 
 func (ex *Exec) mapInit(st *State, mt *types.Map, p *Term) {
 	pn, ps, vn, vs := mapComps(mt)
 	ex.noteWrite(pn)
-	st.setComp(pn, Store(st.comp(pn, ps), p, ConstArr(ps.Elem, False)))
+	st.setComp(pn, Store(st.comp(pn, ps), p, zeroLeaf(ps.Elem)))
 	for i := range vn {
 		ex.noteWrite(vn[i])
-		st.setComp(vn[i], Store(st.comp(vn[i], vs[i]), p, ConstArr(vs[i].Elem, zeroLeaf(vs[i].Elem.Elem))))
+		st.setComp(vn[i], Store(st.comp(vn[i], vs[i]), p, zeroLeaf(vs[i].Elem)))
 	}
 }
 
-func (ex *Exec) mapGet(st *State, pc *Term, mt *types.Map, m, k *Term) (Value, *Term) {
+func (ex *Exec) mapGet(st *State, pc *Term, mt *types.Map, m *Term, k []*Term) (Value, *Term) {
 	pn, ps, vn, vs := mapComps(mt)
-	present := And(Not(Eq(m, C64(0))), Select(Select(st.comp(pn, ps), m), k))
+	present := And(Not(Eq(m, C64(0))), selN(Select(st.comp(pn, ps), m), k))
 	ls := make([]*Term, len(vn))
 	for i := range vn {
-		raw := Select(Select(st.comp(vn[i], vs[i]), m), k)
-		ls[i] = Ite(present, raw, zeroLeaf(vs[i].Elem.Elem))
+		raw := selN(Select(st.comp(vn[i], vs[i]), m), k)
+		ls[i] = Ite(present, raw, zeroLeaf(leafOf(vs[i].Elem)))
 	}
 	v := fromLeaves(mt.Elem(), ls)
 	ex.assumeWF(st, pc, v)
@@ -984,16 +1006,16 @@ func (ex *Exec) lookup(fr *Frame, st *State, pc *Term, x *ssa.Lookup) Value {
 	panic(unsupported(fmt.Sprintf("Lookup on %T", base)))
 }
 
-func (ex *Exec) mapSet(st *State, mt *types.Map, m, k *Term, v Value) {
+func (ex *Exec) mapSet(st *State, mt *types.Map, m *Term, k []*Term, v Value) {
 	pn, ps, vn, vs := mapComps(mt)
 	pc0 := st.comp(pn, ps)
 	ex.noteWrite(pn)
-	st.setComp(pn, Store(pc0, m, Store(Select(pc0, m), k, True)))
+	st.setComp(pn, Store(pc0, m, storeN(Select(pc0, m), k, True)))
 	ls := toLeaves(v)
 	for i := range vn {
 		c := st.comp(vn[i], vs[i])
 		ex.noteWrite(vn[i])
-		st.setComp(vn[i], Store(c, m, Store(Select(c, m), k, ls[i])))
+		st.setComp(vn[i], Store(c, m, storeN(Select(c, m), k, ls[i])))
 	}
 }
 
